@@ -474,7 +474,10 @@ class SqlImpl(TableImpl):
                 for name, uid, val in zip(nd.names, nd.uuids, nd.values, strict=True)
             }
             query.group_by.extend(col._uuid for col in query.partition_by if not types.is_const(col.dtype()))
-            query.select = [col._uuid for col in query.partition_by] + nd.uuids
+            # a grouping column overwritten by one of the new columns is not selected
+            query.select = [
+                col._uuid for col in query.partition_by if sqa_expr[col._uuid].name not in set(nd.names)
+            ] + nd.uuids
             query.partition_by = []
             query.order_by.clear()
             query.summarized = True
